@@ -9,6 +9,12 @@ def check(ix, rep):
     nn = store.check_name_table(ix, rep)
     rep.floor('name-table obligations', nn, 35)
     store.check_pastifier_remap(ix, rep)
+    # a named sub-formula that is stepped twice in one update no longer has the value of the same formula monitored on its own
+    from sa.rules import step
+    from sa import model as M_
+    for m_ in M_.standard_monitors(ix):
+        if m_.mode == 'online':
+            step.check_step(ix, rep, m_)
     no = ownrule.run(ix, rep)
     rep.floor('functions in the ownership analysis', no, 250)
     explanation = (
